@@ -93,7 +93,7 @@ def _c16_hybrid(a, col):
     col.extra["contract_evaluations"] = dict(contracts.COUNT)
 
 
-_C08_PROG = {"profile": "levels", "oracles": [_o2("judge_c08")], "opts": {"approx_ops": False, "near_basis": True, "lifecycle": 0.15, "near_pure": 0.3}}
+_C08_PROG = {"profile": "levels", "oracles": [_o2("judge_c08")], "opts": {"approx_ops": False, "near_basis": True, "lifecycle": 0.15, "near_pure": 0.3, "near_pure_lo": -7.5}}
 _C10_PROG = {"profile": "resize", "oracles": [_o2("judge_resize"), _o2("judge_truncation")],
              "opts": {"env_max": 2, "cus_max": 1, "fock_types": ["Displace", "Squeeze", "Creation", "Annihilation", "PhaseShift", "Custom"]}}
 _C11_PROG = {"profile": "optics", "oracles": [_o2("judge_c11")],
@@ -130,7 +130,7 @@ PROPS = {
     "C04": {"profile": "measure", "rule": "every measure call of generated programs is one case: each intercepted jax.random.choice draw (p, outcome set, key) is matched with a member of the specified measured set whose conditional reduced diagonal equals p; cell = (measure, entry point, storages, levels, state class, flags, kinds of the measured set); trivial iff state class is a fresh product of basis labels",  "oracles": [lambda r: O.judge_measure(r, "C04")], "free_mix": 0.25},
     "C05": {"profile": "measure", "oracles_extra": "continuation", "rule": "every measure call (branch chosen uniformly over the support by the steered sampler, or by the real sampler) is one case: outcome keys, fates of measured subsystems, collapsed joint state of the survivors; plus one dead probe per freshly destroyed subsystem; cell = (measure|dead-probe, entry point, storages, levels, state class, flags, kinds); trivial iff state class is a fresh product of basis labels",  "oracles": [lambda r: O.judge_measure(r, "C05"), O.judge_dead_probe],
             "post_step": _dead_probe_hook, "free_mix": 0.15},
-    "C06": {"profile": "kraus", "rule": "every apply_kraus call of generated programs (identity, unitary, depolarising and Haar-dilation channels with 2-4 operators, 1-3 targets in any order) is one case judged against sum_i K_i rho K_i^dagger on the joint state, unit trace and the level rule; cell = (kraus, entry point, storages, levels, state class, #targets, #operators); trivial iff state class is a fresh product of basis labels",  "oracles": [O.judge_c06]},
+    "C06": {"profile": "kraus", "rule": "every apply_kraus call of generated programs (identity, unitary, depolarising and Haar-dilation channels with 2-4 operators, 1-3 targets in any order) is one case judged against sum_i K_i rho K_i^dagger on the joint state, unit trace and the level rule; cell = (kraus, entry point, storages, levels, state class, #targets, #operators); trivial iff state class is a fresh product of basis labels",  "oracles": [O.judge_c06], "opts": {"weak_channels": 0.12}},
     "C07": {"profile": "invariants", "rule": "after every successful call of generated programs (all step kinds, contraction toggled) every live storage block is checked: label range, unit norm, hermiticity, PSD, unit trace, shape = product of member dimensions, tag = representation, members report the block level; case = one call; cell = (call, operation, entry point, storage, level, contraction flag); trivial iff the addressed block is at label level",  "oracles": [O.judge_c07], "opts": {"multi_ce": 0.15, "lifecycle": 0.15}},
     "C09": {"profile": "povm", "rule": "every measure_POVM call (computational, rotated projective and non-projective complete sets, 1-2 targets, destructive or not) is one case: draw distribution, returned outcome, fates, post state of the survivors; cell = (povm, entry point, storages, levels, state class, flags, kinds, operator-set kind); trivial iff state class is a fresh product of basis labels",  "oracles": [O.judge_c09], "free_mix": 0.2},
     "C13": {"profile": "graph", "rule": "after every call (successful or not) of generated programs (profile graph: constructions, merges incl. handles sharing a container and chains, scripted multi-composite and envelope life-cycle prefixes, combines, reorders, measurements) the bookkeeping predicates are evaluated on the whole object graph, unrelated composites are bit-compared, and after bookkeeping calls every subsystem reduced state is re-read through its indices; case = one call; cell = (call, entry point, storage, raised?, #composite handles); trivial iff no composite envelope exists yet",  "oracles": [O.judge_c13], "opts": {"env_max": 4, "multi_ce": 0.5, "lifecycle": 0.2}},
